@@ -244,6 +244,41 @@ def byte_constants():
     return _BYTE_CONSTANTS
 
 
+_DEP_TABLES = None
+
+
+def dependency_constant_tables():
+    """Tables of byte-string identifiers the data hub keeps (one list per enumeration whose members carry a bytes
+    attribute of 16..64 octets, e.g. the certificate transparency log ids)."""
+    global _DEP_TABLES  # pylint: disable=global-statement
+    if _DEP_TABLES is None:
+        import enum
+        import sys
+        import attr
+        tables = []
+        for name in sorted(sys.modules):
+            if not name.startswith('cryptodatahub.'):
+                continue
+            module = sys.modules[name]
+            for attr_name in sorted(vars(module)):
+                obj = vars(module)[attr_name]
+                if not (isinstance(obj, type) and issubclass(obj, enum.Enum) and obj.__module__ == name):
+                    continue
+                found = []
+                for member in obj:
+                    value = member.value
+                    fields = [f.name for f in attr.fields(type(value))] if attr.has(type(value)) else []
+                    for field in fields:
+                        item = getattr(value, field, None)
+                        raw = getattr(item, 'value', item)       # Base64Data-like wrappers keep the octets in .value
+                        if isinstance(raw, (bytes, bytearray)) and 16 <= len(raw) <= 64 and bytes(raw) not in found:
+                            found.append(bytes(raw))
+                if len(found) >= 2:
+                    tables.append(found)
+        _DEP_TABLES = tables
+    return _DEP_TABLES
+
+
 _NAME_ENUMS = None
 _NAME_CHARS = frozenset(b'ABCDEFGHIJKLMNOPQRSTUVWXYZabcdefghijklmnopqrstuvwxyz0123456789@._+/-')
 
